@@ -227,6 +227,9 @@ type c14stmt struct {
 	decl     string // oracle: name to mark used after a declaration
 	shape    string // write shape
 	wvar     int    // variable written (-1: none)
+	wvar2    int    // second variable written by a range statement (0 value = none, stored as name+1)
+	presrc   string // addrf: the function declaration evaluated first (interpreter)
+	opresrc  string // addrf: the same for the oracle program
 	viaPtr   bool
 }
 
@@ -346,6 +349,112 @@ func (st *c14syms) compile(op string) c14stmt {
 		pp.kind, pp.target, pp.tver = tv.kind, n, tv.ver
 		return c14stmt{valid: true, src: src, osrc: st.pname(p, true) + " := &" + st.vname(n, true), kind: tv.kind,
 			decl: st.pname(p, true), wvar: -1}
+	case "addrf":
+		// addrf P N FID DEPTH: func f<FID>() *K { return &v<N> } (DEPTH-1 more closures around &v), then p<P> := f<FID>()
+		if len(w) != 5 {
+			return bad
+		}
+		p, ok1 := c14atoi(w[1])
+		n, ok2 := c14atoi(w[2])
+		fid, ok3 := c14atoi(w[3])
+		depth, ok4 := c14atoi(w[4])
+		if !ok1 || !ok2 || !ok3 || !ok4 || depth < 1 || depth > 6 {
+			return bad
+		}
+		body := func(k, v string) string {
+			e := "&" + v
+			for d := 1; d < depth; d++ {
+				e = "func() *" + k + " { return " + e + " }()"
+			}
+			return "() *" + k + " { return " + e + " }"
+		}
+		if st.vars[n] == nil {
+			return c14stmt{src: fmt.Sprintf("p%d := f%d()", p, fid), presrc: fmt.Sprintf("func f%d%s", fid, body("int", fmt.Sprintf("v%d", n))), wvar: -1}
+		}
+		tv := st.vars[n]
+		pp := st.ptrs[p]
+		if pp == nil {
+			pp = &c14ptr{}
+			st.ptrs[p] = pp
+		} else {
+			pp.ver++
+		}
+		pp.kind, pp.target, pp.tver = tv.kind, n, tv.ver
+		return c14stmt{valid: true, src: fmt.Sprintf("p%d := f%d()", p, fid), presrc: fmt.Sprintf("func f%d%s", fid, body(tv.kind, st.vname(n, false))),
+			osrc: fmt.Sprintf("%s := f%d()", st.pname(p, true), fid), opresrc: fmt.Sprintf("f%d := func%s", fid, body(tv.kind, st.vname(n, true))),
+			kind: tv.kind, decl: st.pname(p, true), wvar: -1, shape: fmt.Sprintf("addrf-depth%d", depth)}
+	case "rngs", "rngl":
+		// rngs KN VN TEXT | rngl KN VN KIND CONST...:  for v<KN>, v<VN> = range "TEXT" | []KIND{...} {}
+		if len(w) < 4 {
+			return bad
+		}
+		elem := "int32"
+		var srcExpr string
+		if w[0] == "rngs" {
+			if len(w) != 4 {
+				return bad
+			}
+			if w[3] == "-" {
+				srcExpr = `""`
+			} else {
+				srcExpr = strconv.Quote(w[3])
+			}
+		} else {
+			elem = w[3]
+			var cs []string
+			rest := w[4:]
+			for len(rest) > 0 {
+				n := 2
+				if rest[0] == "n2" {
+					n = 3
+				}
+				if len(rest) < n {
+					return bad
+				}
+				c, ok := c14constSrc(elem, rest[:n])
+				if !ok {
+					return bad
+				}
+				cs = append(cs, c)
+				rest = rest[n:]
+			}
+			srcExpr = "[]" + elem + "{" + strings.Join(cs, ", ") + "}"
+		}
+		valid := true
+		name := func(word, kind string) (string, string, int) {
+			if word == "-" {
+				return "_", "_", -1
+			}
+			n, ok := c14atoi(word)
+			if !ok {
+				valid = false
+				return "_", "_", -1
+			}
+			if st.vars[n] == nil || st.vars[n].kind != kind {
+				valid = false
+				return fmt.Sprintf("v%d", n), "_", -1
+			}
+			return st.vname(n, false), st.vname(n, true), n
+		}
+		ks, kos, kn := name(w[1], "int")
+		vs, vos, vn := name(w[2], elem)
+		src := fmt.Sprintf("for %s, %s = range %s {}", ks, vs, srcExpr)
+		if !valid {
+			return c14stmt{src: src, wvar: -1}
+		}
+		shape := "range-string"
+		if w[0] == "rngl" {
+			shape = "range-slice"
+		}
+		r := c14stmt{valid: true, src: src, osrc: fmt.Sprintf("for %s, %s = range %s {\n\t}", kos, vos, srcExpr), kind: elem, shape: shape, wvar: vn}
+		if kn >= 0 {
+			if vn < 0 {
+				r.wvar = kn
+			} else {
+				r.wvar2 = kn + 1
+			}
+		}
+		return r
 	case "asg", "wrp":
 		if len(w) < 5 {
 			return bad
@@ -487,6 +596,9 @@ func c14prepare(ops []string) {
 		case s.mayPanic:
 			fmt.Fprintf(&body, "\tfunc() {\n\t\tdefer func() {\n\t\t\tif recover() != nil {\n\t\t\t\temit(\"%d panic\")\n\t\t\t}\n\t\t}()\n\t\t%s\n\t}()\n", i, s.osrc)
 		default:
+			if s.opresrc != "" {
+				fmt.Fprintf(&body, "\t%s\n", s.opresrc)
+			}
 			fmt.Fprintf(&body, "\t%s\n", s.osrc)
 			if s.decl != "" {
 				fmt.Fprintf(&body, "\t_ = %s\n", s.decl)
@@ -658,7 +770,15 @@ func c14exec(op string) Result {
 		return Result{Out: "bad-op", Tags: []string{"bad-op"}}
 	}
 	capBefore := -1
-	status, vals := c14eval(ir, s.src)
+	var status string
+	var vals []reflect.Value
+	if s.presrc != "" {
+		// addrf: two evaluations; the second only if the first succeeded
+		status, _ = c14eval(ir, s.presrc)
+	}
+	if s.presrc == "" || status == "ok" {
+		status, vals = c14eval(ir, s.src)
+	}
 	out := status
 	if status == "ok" && s.isRead {
 		if len(vals) == 1 && vals[0].IsValid() {
@@ -707,7 +827,7 @@ func c14exec(op string) Result {
 			tags = append(tags, "ptr-to-redeclared")
 		}
 	}
-	if w[0] == "addr" && s.valid {
+	if (w[0] == "addr" || w[0] == "addrf") && s.valid {
 		tags = append(tags, "addr-"+c14class(ir, "v"+w[2]))
 	}
 	r := Result{Out: out, Tags: tags, Nontrivial: s.valid, Sig: ""}
@@ -766,7 +886,7 @@ func c14exec(op string) Result {
 				}
 			}
 		}
-		if len(w) > 4 {
+		if len(w) > 4 && (w[0] == "asg" || w[0] == "wrp") {
 			if n, ok := c14atoi(w[4]); ok {
 				if w[3] == "v" {
 					touched = touched || aliased(n)
@@ -780,7 +900,7 @@ func c14exec(op string) Result {
 			key = "ints-realloc-after-address"
 		case touched && w[0] != "addr" && w[0] != "decl":
 			key = "ptr-aliases-redeclared:" + c14kindGroup(s.kind)
-		case w[0] == "addr" && out == "cerr":
+		case (w[0] == "addr" || w[0] == "addrf") && out == "cerr":
 			key = "addr-unsupported:" + s.kind
 		case (w[0] == "rdp" || w[0] == "wrp") && staleTarget:
 			key = "ptr-aliases-redeclared:" + c14kindGroup(s.kind)
@@ -789,7 +909,7 @@ func c14exec(op string) Result {
 		case w[0] == "read":
 			n, _ := c14atoi(w[1])
 			key = "var-read-after:" + lastw(n) + ":" + cls
-		case w[0] == "asg" || w[0] == "wrp":
+		case w[0] == "asg" || w[0] == "wrp" || w[0] == "rngs" || w[0] == "rngl":
 			key = "assign-" + out + ":" + s.shape + ":" + cls
 		case w[0] == "decl":
 			key = "decl-" + out + ":" + c14kindGroup(s.kind)
@@ -799,6 +919,11 @@ func c14exec(op string) Result {
 		r.Tags = append(r.Tags, "viol:"+key)
 	}
 	// remember the shape of the last write (after the comparison, so that a read reports the write before it)
+	if s.valid && s.wvar2 > 0 {
+		if v := c14st.vars[s.wvar2-1]; v != nil {
+			v.lastWrite = s.shape + "-key"
+		}
+	}
 	if s.valid && s.wvar >= 0 && w[0] != "decl" {
 		if v := c14st.vars[s.wvar]; v != nil && (!s.viaPtr || preTarget == nil || preTarget.tver == v.ver) {
 			v.lastWrite = s.shape
@@ -819,11 +944,19 @@ type c14gen struct {
 	ptrs map[int]string
 	vl   []int
 	pl   []int
+	fid  int // next helper function name
+	// noIntAddr: never take the address of a variable that lives in env.Ints (the history must reallocate env.Ints)
+	noIntAddr bool
+	// onlyKind/onlyDepth: every address of a variable living in env.Ints is taken from inside a function at this
+	// depth and only on variables of this kind (so that ONE arm of Var.Address carries the whole history)
+	onlyKind  string
+	onlyDepth int
 }
 
 func (g *c14gen) reset() {
 	g.emit("reset")
 	g.vars, g.ptrs, g.vl, g.pl = map[int]string{}, map[int]string{}, nil, nil
+	g.fid, g.noIntAddr, g.onlyKind, g.onlyDepth = 0, false, "", 0
 }
 
 func (g *c14gen) fbits(k string, f float64) uint64 {
@@ -939,6 +1072,13 @@ func (g *c14gen) decl(n int, k string) {
 }
 
 func (g *c14gen) addr(p, n int) {
+	if g.noIntAddr && g.vars[n] != "string" {
+		return
+	}
+	if g.onlyKind != "" && g.vars[n] != "string" {
+		g.addrf(p, n, g.onlyDepth)
+		return
+	}
 	if k, ok := g.vars[n]; ok {
 		if _, ok := g.ptrs[p]; !ok {
 			g.pl = append(g.pl, p)
@@ -946,6 +1086,65 @@ func (g *c14gen) addr(p, n int) {
 		g.ptrs[p] = k
 	}
 	g.emit(fmt.Sprintf("addr %d %d", p, n))
+}
+
+// addrf: the address is taken `depth` function frames below the top level
+func (g *c14gen) addrf(p, n, depth int) {
+	if g.noIntAddr && g.vars[n] != "string" {
+		return
+	}
+	if g.onlyKind != "" && g.vars[n] != "string" {
+		if g.vars[n] != g.onlyKind {
+			return
+		}
+		depth = g.onlyDepth
+	}
+	if k, ok := g.vars[n]; ok {
+		if _, ok := g.ptrs[p]; !ok {
+			g.pl = append(g.pl, p)
+		}
+		g.ptrs[p] = k
+	}
+	g.emit(fmt.Sprintf("addrf %d %d %d %d", p, n, g.fid, depth))
+	g.fid++
+}
+
+// rng: a range statement in assignment form whose value variable is v<n>; the key variable is a random
+// variable of kind int, if any
+func (g *c14gen) rng(n int) {
+	k, ok := g.vars[n]
+	if !ok || k == "bool" && g.r.Intn(2) == 0 {
+		return
+	}
+	key := "-"
+	var ints []int
+	for _, m := range g.vl {
+		if g.vars[m] == "int" && m != n {
+			ints = append(ints, m)
+		}
+	}
+	if len(ints) > 0 && g.r.Intn(3) != 0 {
+		key = strconv.Itoa(ints[g.r.Intn(len(ints))])
+	}
+	if k == "int32" && g.r.Intn(3) != 0 {
+		text := []string{"hello", "a", "Zz9", "-", "range"}[g.r.Intn(5)]
+		g.emit(fmt.Sprintf("rngs %s %d %s", key, n, text))
+	} else {
+		cnt := g.r.Intn(4)
+		var cs []string
+		for i := 0; i < cnt; i++ {
+			c := g.konst(k, "set")
+			if c == "s" {
+				c = "s e"
+			}
+			cs = append(cs, c)
+		}
+		g.emit(strings.TrimSpace(fmt.Sprintf("rngl %s %d %s %s", key, n, k, strings.Join(cs, " "))))
+	}
+	g.emit(fmt.Sprintf("read %d", n))
+	if key != "-" {
+		g.emit("read " + key)
+	}
 }
 
 // a right-hand side of kind k for operator op
@@ -1020,8 +1219,10 @@ func (g *c14gen) randomStep(pool int) {
 			k = old // redeclaration with the same type
 		}
 		g.decl(n, k)
-	case c < 22:
+	case c < 19:
 		g.addr(r.Intn(pool/2+1), g.vl[r.Intn(len(g.vl))])
+	case c < 22:
+		g.addrf(r.Intn(pool/2+1), g.vl[r.Intn(len(g.vl))], 1+r.Intn(4))
 	case c < 50:
 		n := g.vl[r.Intn(len(g.vl))]
 		g.assign(n)
@@ -1034,6 +1235,8 @@ func (g *c14gen) randomStep(pool int) {
 		if r.Intn(2) == 0 {
 			g.emit(fmt.Sprintf("rdp %d", p))
 		}
+	case c < 66:
+		g.rng(g.vl[r.Intn(len(g.vl))])
 	case c < 78:
 		g.emit(fmt.Sprintf("read %d", g.vl[r.Intn(len(g.vl))]))
 	case c < 90 && len(g.pl) > 0:
@@ -1059,6 +1262,9 @@ func (g *c14gen) randomStep(pool int) {
 				g.emit(fmt.Sprintf("asg %d %s c n 0", n, []string{"quo", "rem"}[r.Intn(2)]))
 			}
 		case 5:
+			// (no malformed range statements here: a statement that fails to compile after it opened a scope leaves
+			// a stale PushEnv in the code buffer, which the next declaration executes - C15's finding
+			// `failed-input-code-runs-later`, see notes/C15.md)
 			n := g.vl[r.Intn(len(g.vl))]
 			g.emit(fmt.Sprintf("asg %d add d %d", n, pool+r.Intn(5)))
 		}
@@ -1109,10 +1315,42 @@ func c14generate(r *rand.Rand, tier string, emit func(string)) {
 				}
 			}
 			emit("stat")
+			// the address taken 1, 2 and 3 function frames below the top level (every depth arm of Var.Address)
+			g.decl(103, "int")
+			for d := 1; d <= 3; d++ {
+				g.addrf(20+d, 0, d)
+				emit(fmt.Sprintf("rdp %d", 20+d))
+				emit(fmt.Sprintf("wrp %d set c %s", 20+d, g.konst(k, "set")))
+				emit("read 0")
+				emit("rdp 0")
+			}
+			emit("stat")
+			// range statements in assignment form over v0 (value) and v103 (key)
+			if k == "int32" {
+				emit("rngs 103 0 hello")
+				emit("read 0")
+				emit("read 103")
+				emit("read 100")
+				emit("rngs - 0 xy")
+				emit("read 0")
+				emit("rdp 0")
+			}
+			g.rng(0)
+			g.rng(0)
+			emit("read 100")
+			emit("read 103")
 			for j, k2 := range c14kinds {
 				g.decl(0, k2)
 				emit("read 0")
 				emit("rdp 0")
+				if k2 == "int32" {
+					emit("rngs 103 0 world")
+					emit("read 0")
+					emit("read 103")
+				}
+				if j%3 == 1 {
+					g.rng(0)
+				}
 				if j%4 == 0 {
 					g.addr(1+j, 0)
 					emit(fmt.Sprintf("rdp %d", 1+j))
@@ -1123,6 +1361,21 @@ func c14generate(r *rand.Rand, tier string, emit func(string)) {
 				emit("read 100")
 			}
 			g.readAll(0)
+			emit("stat")
+		}
+	}
+	// (1a) every (kind, depth) arm of Var.Address alone: the FIRST address of the history is taken `depth` function
+	//      frames below the top level; the counters (IntBindMax = cap(env.Ints)) show whether the right frame was flagged
+	for _, k := range c14kinds {
+		for d := 1; d <= 4; d++ {
+			g.reset()
+			g.decl(0, k)
+			g.addrf(0, 0, d)
+			emit("stat")
+			emit("rdp 0")
+			emit("wrp 0 set c " + g.konst(k, "set"))
+			emit("read 0")
+			g.decl(1, "int")
 			emit("stat")
 		}
 	}
@@ -1183,12 +1436,23 @@ func c14generate(r *rand.Rand, tier string, emit func(string)) {
 		typ := h % 4
 		next := 0
 		switch typ {
-		case 0: // address taken early
-			pre := 1 + r.Intn(40)
-			for ; next < pre; next++ {
-				g.decl(next, g.anyKind())
+		case 0: // addresses taken early, ALL of them from inside a function at one depth on variables of one kind
+			g.onlyKind, g.onlyDepth = "int", 1
+			if h >= 4 {
+				g.onlyKind, g.onlyDepth = c14kinds[r.Intn(16)], 1+r.Intn(4)
 			}
-			for j := 0; j < 3; j++ {
+			pre := 2 + r.Intn(40)
+			g.decl(0, g.onlyKind)
+			for next = 1; next < pre; next++ {
+				if next%3 == 0 {
+					g.decl(next, g.onlyKind)
+				} else {
+					g.decl(next, g.anyKind())
+				}
+			}
+			g.addrf(0, 0, g.onlyDepth)
+			emit("stat")
+			for j := 1; j < 3; j++ {
 				g.addr(j, r.Intn(pre))
 			}
 		case 1, 2: // env.Ints (capacity 1024) is full (2) or one slot short of full (1) when the first address is taken
@@ -1205,7 +1469,8 @@ func c14generate(r *rand.Rand, tier string, emit func(string)) {
 			emit("rdp 0")
 			emit(fmt.Sprintf("read %d", next-1))
 			emit(fmt.Sprintf("read %d", next-2))
-		case 3: // pointers to string variables only (boxed places): they survive the reallocation of env.Ints
+		case 3: // pointers to string variables only (boxed places): env.Ints and env.Vals are reallocated, every value must survive
+			g.noIntAddr = true
 			pre := 1 + r.Intn(40)
 			for ; next < pre; next++ {
 				g.decl(next, g.anyKind())
@@ -1226,7 +1491,11 @@ func c14generate(r *rand.Rand, tier string, emit func(string)) {
 				}
 				next++
 			case c < 7 && early:
-				g.addr(r.Intn(40), r.Intn(next))
+				if r.Intn(3) == 0 {
+					g.addrf(r.Intn(40), r.Intn(next), 1+r.Intn(3))
+				} else {
+					g.addr(r.Intn(40), r.Intn(next))
+				}
 			default:
 				g.randomStep(next)
 			}
@@ -1240,8 +1509,19 @@ func c14generate(r *rand.Rand, tier string, emit func(string)) {
 			if _, ok := g.vars[n]; ok {
 				g.assign(n)
 				emit(fmt.Sprintf("read %d", n))
+				if j%3 == 0 {
+					g.rng(n)
+				}
 			}
 		}
+		// range over a string into the most recent int32 variables (boxed once env.Ints is full)
+		g.decl(next, "int32")
+		g.decl(next+1, "int")
+		emit(fmt.Sprintf("rngs %d %d hello", next+1, next))
+		emit(fmt.Sprintf("read %d", next))
+		emit(fmt.Sprintf("read %d", next+1))
+		emit(fmt.Sprintf("rngs - %d go", next))
+		emit(fmt.Sprintf("read %d", next))
 		g.readAll(0)
 		emit("stat")
 	}
